@@ -10,6 +10,11 @@ import os
 import random
 import warnings
 
+# one BLAS/OpenMP thread per worker: 16 workers run side by side and the arrays are tiny
+# (must be set before numpy is first imported, which happens after this module is loaded)
+for _v in ("OPENBLAS_NUM_THREADS", "OMP_NUM_THREADS", "MKL_NUM_THREADS"):
+    os.environ.setdefault(_v, "1")
+
 from vlib import jsonx
 from vlib.gen import formats as genf
 from vlib.ref import rawfile
@@ -47,13 +52,15 @@ ASSUMPTIONS = [
     "type(x) is int, i.e. numpy integers are rejected",
 ]
 CASE_TIMEOUT_S = 120
+# generous hard limits: the sandbox is shared and wall-clock must never decide anything
+SHARD_TIMEOUT_S = {"quick": 3600, "thorough": 8 * 3600}
 
 GENERATORS = ("moving_sprite", "static_sprite", "mid_gray", "white_noise", "linear_ramps", "real_pictures")
 
 _TIER = {
     # formats in total, shards, max depth
     "quick": (9600, 16, 32),
-    "thorough": (480000, 64, 63),
+    "thorough": (400000, 64, 63),
 }
 
 
